@@ -16,6 +16,7 @@ CONSTANTS
  InitChan <- %(chan)s
  InitFifo = %(fifo)s
  GenDepth = %(gen)d
+ LateParty = %(late)d
 INVARIANTS %(inv)s
 PROPERTIES DeliveryStepP %(props)s
 CHECK_DEADLOCK FALSE
@@ -24,7 +25,7 @@ CHECK_DEADLOCK FALSE
 SAFE = "Agreement NoDuplicate Integrity QValidity QTotality KnownIsAccepted"
 def cfg(name, **kw):
     d = dict(spec="MCSpec", n=4, t=1, honest="H3", f3="TRUE", f4="TRUE", f15="TRUE", prog="P_one3", dfrom="None", who="AllParties", budget=0,
-             alpha="None", chan="Empty", fifo="TRUE", gen=0, inv=SAFE, props="", tail="VIEW View")
+             alpha="None", chan="Empty", fifo="TRUE", gen=0, late=99, inv=SAFE, props="", tail="VIEW View")
     d.update(kw)
     open(name + ".cfg", "w").write(base % d)
 
@@ -52,3 +53,4 @@ cfg("GEN_RBC_sw", prog="P_switch3", budget=2, alpha="AlphaForge", **GEN)
 cfg("GEN_RBC_h4", honest="H4", prog="P_one4", **GEN)
 cfg("GEN_RBC_df", prog="P_switch3", dfrom="D1", **GEN)
 cfg("GEN_RBC_rec", prog="P_rec3", **dict(GEN, gen=90))
+cfg("GEN_RBC_late", honest="H4", prog="P_two4", late=3, **dict(GEN, gen=90))   # ready quorum before the payload at party 3 (finding F15)
